@@ -249,7 +249,7 @@ META = {
     "custom returning, custom raising, instance with raising _dispatch}, version given as integer, and configurations with serialisation handlers for "
     "float/str/int (which rewrite result values and must leave ids alone); exotic-ids: 19 ids written with unusual code points (lone and paired surrogates, NUL, U+2028, BOM, raw and escaped non-ASCII, "
     "quote, backslash, exponent and 20-digit numbers) x 5 outcomes x forms x 4 worlds and every pair of them in a batch, through the dispatcher and through "
-    "the real HTTP handler (bytes on the wire); object-ids: an entry of every outcome kind whose id is a translated object, alone and first / in the middle / last among ordinary calls (the others are answered one-to-one); scale: batches of 1001/1025/2500 (thorough 20000) entries "
+    "the real HTTP handler (bytes on the wire); odd-markers: entries whose jsonrpc member is a string spelling another version, a number, a boolean, null or a container, next to each ordinary entry and to each other; object-ids: an entry of every outcome kind whose id is a translated object, alone and first / in the middle / last among ordinary calls (the others are answered one-to-one); scale: batches of 1001/1025/2500 (thorough 20000) entries "
     "(calls, notifications, mixed, failing) and ids/parameters 25-150 (thorough 300) levels deep or that long; every case is non-trivial (each yields at least one id/count obligation)",
     "bounds": {"quick": {"batch_len": 3, "alphabet": 24}, "thorough": {"batch_len": 4, "alphabet": 24}},
     "assumptions": [
